@@ -167,6 +167,7 @@ func VerifC02Plain() {
 	o.answer = func(i int, req *http.Request) (*http.Response, error) {
 		return rawResponse(resSpec{status: 201, hval: "o", body: []byte("ok")}.wire(), req)
 	}
+	o.wraps = vf.Choice("round-tripper-works-on-a-copy-of-the-request", 2) == 1
 	m := &recorder{behave: behave, o: o, conn: conn, hijackedAt: -1}
 	p := NewProxy()
 	p.SetRoundTripper(o)
